@@ -3,7 +3,7 @@
 (* every routine of LapackContract.tla, evaluates the decision table and      *)
 (* prints one self-contained JSON object per tuple.                           *)
 (* Mode "sample": the property's grid                                         *)
-(*    dimensions {-1,0,1,2,3,5}, ld in {min-1,min,min+2}, incv in -2..2,      *)
+(*    dimensions {-1,0,1,2,3,5}, ld in {min-1,min,min+2}, inc in -2..2,       *)
 (*    lwork in {-1, min-1, min, opt}, slice lengths {need-1,need,need+3},     *)
 (*    every flag legal or illegal                                             *)
 (* stratified: 2/8 all clauses satisfied, 5/8 exactly one argument drawn from *)
@@ -21,7 +21,7 @@ VARIABLE g
 
 DimAll == {-1, 0, 1, 2, 3, 5}
 LdAll == {-1, 0, 2}      LdOK == {0, 2}
-IncAll == -2 .. 2        IncOK == IncAll \ {0}
+IncAll == -2 .. 2
 LenAll == {-1, 0, 3}     LenOK == {0, 3}
 LwkAll == {"q", "lo", "min", "opt"}   LwkOK == {"q", "min", "opt"}
 
@@ -51,7 +51,13 @@ RoutineSeq == <<"Dgetrf", "Dgetf2", "Dgetrs", "Dgesv", "Dgetri", "Dpotrf", "Dpot
                 "Dormqr", "Dorm2r", "Dormlq", "Dorml2", "Dtrtri", "Dtrti2", "Dtrtrs", "Dlarft", "Dlarfb", "Dlarf",
                 "Dgels", "Dgesvd", "Dsyev", "Dsytrd", "Dorgtr", "Dgeev", "Dtrcon", "Dgecon", "Dpocon", "Dlansy",
                 "Dgehrd", "Dorghr", "Dgeqp3", "Dgebrd", "Dlacpy", "Dlaset", "Dlange", "Dlantr",
-                "Dpbtrs", "Dtbtrs", "Dpbtrf", "Dgtsv", "Dptsv", "Dorgbr", "Dormbr", "Dormhr">>
+                "Dpbtrs", "Dtbtrs", "Dpbtrf", "Dgtsv", "Dptsv", "Dorgbr", "Dormbr", "Dormhr",
+                "Dlansb", "Dlantb", "Dlangt", "Dlanst", "Dlangb", "Dlanhs", "Dlascl", "Dlaswp", "Dlapmt", "Dlapmr",
+                "Drscl", "Dlassq", "Dlasrt", "Dgeql2", "Dgerq2", "Dgehd2", "Dsytd2", "Dlauu2", "Dlauum",
+                "Dpttrf", "Dpttrs", "Dptcon", "Dgerqf", "Dorgql", "Dorg2l", "Dorgr2", "Dormr2", "Dpbtf2", "Dpbcon",
+                "Dsterf", "Dlarfg">>
+\* the routines added with the norm-type / auxiliary families (their work slice is also drawn empty)
+NewGrid == {RoutineSeq[kk] : kk \in 54 .. Len(RoutineSeq)}
 RIdx(r) == CHOOSE kk \in 1 .. Len(RoutineSeq) : RoutineSeq[kk] = r
 LwkSeq == <<"q", "min", "opt", "lo">>
 NthLwk(S, kk) == LET idx == {i \in 1 .. 4 : LwkSeq[i] \in S}
@@ -100,13 +106,15 @@ Sample(r, i) ==
         is == IVecs(r)
         ldx(j) == NthInt(Pick(LdOK, LdAll, which(Slots[8 + j])), H(8 + j))
         ld == [o \in SeqToSet(ms) |-> Max(1, MatDims(r, p3, o)[2]) + ldx(PosIn(ms, o))]
-        inc == IF HasInc(r) THEN NthInt(Pick(IncOK, IncAll, which("inc")), H(13)) ELSE 1
+        inc == IF HasInc(r) THEN NthInt(Pick(IncLegal(r), IncAll, which("inc")), H(13)) ELSE 1
         lwk == IF HasLwork(r) THEN NthLwk(Pick(LwkOK, LwkAll, which("lwk")), H(14)) ELSE "none"
         p4 == [p3 EXCEPT !.ld = ld, !.inc = inc]
         lwork == LworkOf(r, p4, lwk)
         wd == NthInt(Pick(LenOK, LenAll, which("wk")), H(24))
         dl(j) == NthInt(Pick(LenOK, LenAll, which(Slots[14 + j])), H(14 + j))
-        dv(j) == NthInt(Pick(IF vs[j] \in ExactNames THEN {0} ELSE LenOK, LenAll, which(Slots[18 + j])), H(18 + j))
+        \* a work slice is also drawn empty (the property's grid: 0, need-1, need, need+3)
+        dv(j) == NthInt(Pick(IF vs[j] \in ExactNames THEN {0} ELSE LenOK,
+                             IF vs[j] = "work" /\ r \in NewGrid THEN LenAll \cup {0 - 99} ELSE LenAll, which(Slots[18 + j])), H(18 + j))
         di == NthInt(Pick({0}, LenAll, which("i1")), H(23))
         delta(o) == IF o \in SeqToSet(ms) THEN dl(PosIn(ms, o)) ELSE IF o \in SeqToSet(vs) THEN dv(PosIn(vs, o))
                     ELSE IF o \in SeqToSet(is) THEN di ELSE wd
